@@ -48,6 +48,17 @@ chk("C08",
     "against an association-list model with solver-decided key equalities.",
     SMT + "; reference line splitter, fragmentation-parameterised reader stub, association-list model")
 
+chk("C12",
+    "Bounded symbolic execution of the net<->netip conversions against the statement's oracles (family, bytes, zone, port; membership via the real net.IPNet.Contains over "
+    "fully symbolic IP, mask and probe address; canonicity via net.IPMask.Size), and of PreferIPv4/PreferIPv6 as an order over all address pairs plus the real slices.SortFunc on short slices.",
+    SMT + "; statement oracles over fully symbolic addresses/masks, real std references",
+    "One known finding is recorded in known_findings.json (IPv4-mapped IP with a short 16-byte mask).")
+
+chk("C13",
+    "Bounded symbolic execution of ContainsFold against the statement's definition (real strings.EqualFold on every rune-aligned window) and of SplitTrimmed against its "
+    "definition (real strings.Split/TrimSpace), on all ASCII operands up to a length bound (thorough: one multi-byte rune through the real unicode tables).",
+    SMT + "; implementation vs. definitional reference")
+
 _pending = "check not built yet in this session; see DESIGN.md for the plan"
 for pid in ["C01","C02","C03","C04","C05","C07","C08","C09","C10","C11","C12","C13","C14","C15","C16","C17","C18"]:
     if pid not in CHECKS:
